@@ -105,7 +105,7 @@ def check_case(case):
         return ("%s:py_val-raises:%s" % (kind, type(e).__name__), "%r: py_val raised %s: %s" % (full, type(e).__name__, e))
     if kind == "duration":
         import datetime as dt
-        if not isinstance(pv, dt.timedelta) or not gen_lex.duration_close(pv, exp):
+        if not isinstance(pv, dt.timedelta) or not gen_lex.duration_close(pv, exp, text):
             return ("duration:py_val", "%r: py_val=%r expected %s s" % (full, pv, float(exp)))
         return None
     if type(pv) is not type(exp) and not (kind == "datetime"):
